@@ -17,7 +17,9 @@
        fragment, EQ..GE, AND/OR/XOR/NOT on bool, CONCAT on strings, FAILWITH; stage 2: bytes, SLICE, bitwise logic and shifts, PAIR n/UNPAIR n/GET k/UPDATE k, mutez and timestamp
        arithmetic, SUB_MUTEZ, the environment instructions AMOUNT BALANCE SENDER SOURCE SELF_ADDRESS NOW LEVEL CHAIN_ID
        for every environment with amounts in the mutez range; LAMBDA, EXEC, APPLY (first-class lambdas: closures, lambdas
-       stored in data structures, nested EXEC); NOT yet: sets/maps (modelled and covered by the correspondence only),
+       stored in data structures, nested EXEC); sets and maps READ-ONLY (EMPTY_SET, EMPTY_MAP, MEM, GET, SIZE, ITER on
+       typed sets/maps of any comparable key type); NOT yet: UPDATE, GET_AND_UPDATE, MAP on maps, set/map literals
+       (modelled in both semantics and covered by the correspondence only),
        LAMBDA_REC, PACK/hashes, tickets, operations/contracts),
      - programs accepted by [typecheck_nr] (Michelson typing + every MAP body returns the element type it got),
      and it is stronger than asked: it holds for every fuel (OutOfFuel on one side iff on the other) and for every
@@ -144,8 +146,9 @@ Theorem C01_ediv_spec : forall a b, (b <> 0)%Z ->
 Proof. exact euclid_spec. Qed.
 Print Assumptions C01_ediv_spec.
 
-(* sets and maps are outside the proved simulation, but their LOOKUPS are proved for every comparable key type
-   (composite keys included), without any sortedness assumption: MEM on a set and GET on a map — SetType.contains,
+(* sets and maps: the read-only instructions (EMPTY_SET, EMPTY_MAP, MEM, GET, SIZE, ITER) are part of the proved
+   simulation; spelled out for the lookups, for every comparable key type (composite keys included), without any
+   sortedness assumption: MEM on a set and GET on a map — SetType.contains,
    MapType.get with their class checks — return what the reference rules prescribe, with the right class *)
 Theorem C01_mem_get_agree : forall (e : env) x t l vt lm,
   typed x t -> comparable t = true -> Forall (fun y => typed y t) l -> Forall (entry_typed t vt) lm ->
